@@ -170,6 +170,9 @@ def _build(fmt, rs, A, dt, rdt, kind):
              "negative": -np.abs(gen.arr(rs, [R], rdt, "gauss")) - 0.1}[wk]
         if w is not None:
             w = w.astype(rdt)
+        if w is not None and wk == "generic" and np.dtype(dt).kind == "c" and rs.rand() < 0.5:
+            w = (w + 1j * gen.arr(rs, [R], rdt, "gauss")).astype(dt)       # a complex model may carry complex weights
+            wk = "complex"
         wrapper = rs.rand() < 0.5
         mask = (rs.uniform(size=shp) < 0.6).astype(rdt) if rs.rand() < 0.3 else None     # any order, order 1 included
         if mask is not None and rs.rand() < 0.4:
